@@ -8,7 +8,7 @@ MANIFEST = {
     "note": "Hydrostatic correction uses the mean density at the element's reported temperatures; the pump curve is re-evaluated by the monitor from the regression parameters of the standard type.",
     "technique": "runtime monitoring: set-point identities asserted on result tables after every real pipeflow on generated networks",
 }
-RULE = ("seeded random gas/water networks with pumps (library types), compressors, active/inactive flow controllers, "
+RULE = ("seeded random gas/water networks with 1-3 pumps of different library types and compressors, each optionally with an out-of-service stand-by twin of another type placed before or after it in the table, active/inactive flow controllers, "
         "local and remote pressure controllers, one to three ext grids (also several on one junction, in/out of "
         "service), sinks/sources/storages with scaling, heights 0-60 m, temperatures 283-353 K, plus small heating "
         "loops with mass and pressure circulation pumps; non-trivial = the run returned and at least 3 set-point "
@@ -19,10 +19,10 @@ CONFIG = {"quick": {"shards": 8, "timeout_s": 600, "cases": 560},
 REQUIRED_COUNTERS = ["fixed_pressure_ext_grid", "fixed_pressure_several", "fixed_pressure_circ_pump",
                      "press_control_setpoints", "press_control_setpoints_remote", "prescribed_flow_flow_control",
                      "prescribed_flow_circ_pump_mass", "lift_circ_pump_pressure", "compressor_forward",
-                     "pump_curve_forward", "pump_lift_momentum", "load_reports_sink", "load_reports_source",
+                     "pump_curve_forward", "pump_lift_momentum", "nets_with_standby_machines", "load_reports_sink", "load_reports_source",
                      "load_reports_mass_storage"]
-FEATS = [("pump", "multi_grid", "mass_storage"), ("compressor", "multi_grid"), ("flow_control", "valves", "mass_storage"),
-         ("press_control", "multi_grid"), ("pump", "compressor", "press_control", "flow_control", "multi_grid", "mass_storage", "oos")]
+FEATS = [("pump", "multi_pump", "multi_grid", "mass_storage"), ("compressor", "multi_pump", "multi_grid"), ("flow_control", "valves", "mass_storage"),
+         ("press_control", "multi_grid"), ("pump", "compressor", "multi_pump", "press_control", "flow_control", "multi_grid", "mass_storage", "oos")]
 FLUIDS = ["water", "lgas", "water", "hydrogen", "water", "hgas", "methane"]
 
 
@@ -92,6 +92,23 @@ def make(case):
                 nxt = [p["to_junction"] for p in spec["elements"] if p["kind"] == "pipe" and p["from_junction"] == e["to_junction"]]
                 if nxt:
                     e["controlled_junction"] = nxt[0]
+        # parallel stand-by machines: an out-of-service pump / compressor of another type or ratio, created before or after
+        # the running one (row order of active and inactive elements differs from case to case)
+        els = []
+        for e in spec["elements"]:
+            twin = None
+            if e["kind"] == "pump" and rng.random() < 0.6:
+                twin = dict(e, name=e["name"] + "_standby", std_type=str(rng.choice([t for t in netgen.PUMP_TYPES if t != e["std_type"]])), in_service=False)
+            elif e["kind"] == "compressor" and rng.random() < 0.6:
+                twin = dict(e, name=e["name"] + "_standby", pressure_ratio=e["pressure_ratio"] + 0.3, in_service=False)
+            if twin is not None and rng.random() < 0.6:
+                els += [twin, e]
+            elif twin is not None:
+                els += [e, twin]
+            else:
+                els.append(e)
+        spec["elements"] = els
+        netgen.relabel(spec, rng, str(rng.choice(["contiguous", "shuffled", "gaps"])))
         # an out-of-service extra grid on the first grid's junction
         if rng.random() < 0.3:
             spec["elements"].append({"kind": "ext_grid", "name": "ext_grid_oos", "junction": "j0", "p_bar": 99.0,
@@ -124,6 +141,8 @@ def run_case(case, ctx):
     obs.count("outcome_" + outcome)
     rec = {}
     if outcome == "ok":
+        if any(e["name"].endswith("_standby") for e in spec["elements"]):
+            obs.count("nets_with_standby_machines")
         mon_c03(net, obs, opts)
         judged = {k: sum(v for c, v in obs.counters.items() if c.startswith(k)) for k in KINDS}
         rec["nontrivial"] = sum(judged.values()) >= 3 and sum(1 for v in judged.values() if v) >= 2
